@@ -17,25 +17,29 @@ centiseconds), `fired id t b cs` (handler action ran at real time `t`), `destroy
 (destructor returned).  The log is newest-first.
 
 * `at_most_once`, `not_after_destroy`, `fired_was_born` hold for every schedule and both variants.
-* `never_early`, `prompt`, `deadline_order` are FALSE for the code as written and also for the code
-  with the repaired `==` once a timer expiry may land inside a critical section: see the `_fails`
-  theorems (concrete schedules, all replayed on the real library by `checks/c19.py`).  The
-  `_partial` versions are proved for the repaired `==` (`eqBug = false`):
+* `negative_delay_rejected`: a constructor called with `csecs <= 0` changes nothing.
+* `never_early`, `prompt`, `deadline_order` are FALSE for `Time::operator==` as it was written before
+  the repair (`eqBug = true`; the `_fails` theorems document what the check reports should the typo
+  come back) and, for the repaired code, once a timer expiry may land inside a critical section:
+  see `…_fails_deferred_signal` (concrete schedules, replayed on the real library by
+  `checks/c19.py`; open known finding KF-C19-2).  The `_partial` versions are proved for the code as
+  it is (`eqBug = false`):
   `never_early_partial` for every statement-level schedule in which no timer expiry lands inside a
-  critical section (`NoDeferral`) and no negative delay is passed to a constructor — the exact side
-  condition: the excluded runs are those of the `_fails` theorems;
+  critical section (`NoDeferral`) — the exact side condition: the excluded runs are those of
+  `never_early_fails_deferred_signal`;
   `exact_partial` / `prompt_partial` / `deadline_order_partial` under `Quiet`: no time passes inside a
   critical section (signals are delivered between public operations and at the critical-section
-  boundaries, including between the destructor's test of `expired` and its critical section) and
-  no negative delay.  What is missing for full strength there: a quantitative version ("late by at
-  most the time spent inside critical sections") for runs where time passes inside critical
-  sections without an expiry; the harness judges exactly that bound on the real traces.
+  boundaries, including between the destructor's test of `expired` and its critical section);
+  the `_atomic` versions need no hypothesis at all.  What is missing for full strength there: a
+  quantitative version ("late by at most the time spent inside critical sections") for runs where
+  time passes inside critical sections without an expiry; the harness judges exactly that bound on
+  the real traces.
 -/
 namespace C19
 open PPLV.Watchdog
 
-/-- no time has passed inside a critical section, no negative delay was given -/
-def Quiet (σ : St) : Prop := σ.dirty = false ∧ σ.badArg = false
+/-- no time has passed inside a critical section -/
+@[reducible] def Quiet (σ : St) : Prop := σ.dirty = false
 
 /-! ## Clauses that hold for all schedules, both variants of `operator==`, any arguments -/
 
@@ -103,16 +107,14 @@ theorem never_early_fails_deferred_signal : ¬ ∀ sched, NeverEarly (run false 
 /-- no signal has been deferred: no timer expiry landed inside a critical section -/
 def NoDeferral (σ : St) : Prop := ∀ t, Event.deferred t ∉ σ.log
 
-/-- never before `delay` has elapsed since the constructor was entered: repaired `==`, ANY schedule
-    of the statement-level system — time may pass between any two statements, also inside the
-    critical sections — in which no timer expiry lands inside a critical section and no negative
-    delay is given.  (The two excluded classes are exactly those of `never_early_fails_deferred_signal`
-    and of defect 17.) -/
-theorem never_early_partial (sched : List Step) (hnd : NoDeferral (run false sched))
-    (hargs : (run false sched).badArg = false) : NeverEarly (run false sched).log := by
-  rcases ninv_run sched with ⟨t, ht⟩ | hb | hl
+/-- never before `delay` has elapsed since the constructor was entered: ANY schedule of the
+    statement-level system — time may pass between any two statements, also inside the critical
+    sections — in which no timer expiry lands inside a critical section.  (The excluded class is
+    exactly that of `never_early_fails_deferred_signal`.) -/
+theorem never_early_partial (sched : List Step) (hnd : NoDeferral (run false sched)) :
+    NeverEarly (run false sched).log := by
+  rcases ninv_run sched with ⟨t, ht⟩ | hl
   · exact absurd ht (hnd t)
-  · rw [hargs] at hb; exact absurd hb (by simp)
   · exact hl.base.fired
 
 /-- non-vacuity: time passes inside the constructor's critical section (between `get_timer` and the
@@ -121,30 +123,29 @@ theorem never_early_partial (sched : List Step) (hnd : NoDeferral (run false sch
 example :
     let s : List Step := atomicSched [.create 0 50] ++ [.create 1 10, .step, .tick 7, .step, .tick 9, .step, .step,
                                        .tick 100000, .tick 400000]
-    (run false s).dirty = true ∧ (run false s).badArg = false ∧
+    (run false s).dirty = true ∧
     (run false s).log.all (fun e => match e with | .deferred _ => false | _ => true) = true ∧
     Event.fired 1 100016 0 10 ∈ (run false s).log ∧ Event.fired 0 500016 0 50 ∈ (run false s).log := by
   decide
 
 /-- under the same conditions `set_timer` is never called with a null interval ("PPL internal
     error") and no timer call fails -/
-theorem no_internal_error_partial (sched : List Step) (hnd : NoDeferral (run false sched))
-    (hargs : (run false sched).badArg = false) : (run false sched).err = false := by
-  rcases ninv_run sched with ⟨t, ht⟩ | hb | hl
+theorem no_internal_error_partial (sched : List Step) (hnd : NoDeferral (run false sched)) :
+    (run false sched).err = false := by
+  rcases ninv_run sched with ⟨t, ht⟩ | hl
   · exact absurd ht (hnd t)
-  · rw [hargs] at hb; exact absurd hb (by simp)
   · exact hl.base.noErr
 
 /-- in quiet runs the action runs EXACTLY at birth + delay (never early and prompt at once) -/
 theorem exact_partial (sched : List Step) (hq : Quiet (run false sched)) (id : Nat) (t b cs : Int)
     (hf : Event.fired id t b cs ∈ (run false sched).log) : t = b + cs * 10000 := by
-  obtain ⟨l, ⟨es, hl⟩, hex, _⟩ := quiet_log_facts (inv_run sched) hq.1 hq.2
+  obtain ⟨l, ⟨es, hl⟩, hex, _⟩ := quiet_log_facts (inv_run sched) hq
   exact hex id t b cs (by rw [hl]; exact List.mem_append_right _ hf)
 
 example : Quiet (run false (atomicSched [.create 0 10, .create 1 50, .tick 50000, .destroy 0, .tick 450000])) ∧
     Event.fired 1 500000 0 50 ∈
       (run false (atomicSched [.create 0 10, .create 1 50, .tick 50000, .destroy 0, .tick 450000])).log :=
-  ⟨⟨by decide, by decide⟩, by decide⟩
+  ⟨by decide, by decide⟩
 
 /-! ## prompt -/
 
@@ -155,20 +156,26 @@ def deferredLate : List Step :=
   [.create 2 300, .tick 500000, .step, .step, .step, .step, .tick 10000, .tick 600000]
 
 theorem prompt_fails_deferred_signal :
-    ¬ ∀ sched, (run false sched).inCrit = false → (run false sched).badArg = false → Prompt (run false sched) := by
+    ¬ ∀ sched, (run false sched).inCrit = false → Prompt (run false sched) := by
   intro h
-  have := promptB_of (h deferredLate (by decide) (by decide))
+  have := promptB_of (h deferredLate (by decide))
   revert this; decide
 
-/-- defect 17: a negative delay passes the constructor's `csecs == 0` test; `setitimer` fails, the
-    exception leaves the element pending: watchdog 0 (due at 0.71 s) has not fired at 1.71 s while
-    the never-constructed watchdog 1 has "fired" — atomic operations -/
-theorem prompt_fails_negative_delay :
-    ¬ ∀ sched, (run false sched).inCrit = false → (run false sched).dirty = false → Prompt (run false sched) := by
-  intro h
-  have := promptB_of (h (atomicSched [.create 0 71, .tick 1969, .create 1 (-111), .create 2 165,
-                                      .tick 708031, .tick 1000000]) (by decide) (by decide))
-  revert this; decide
+/-- the constructors reject a non-positive delay (`invalid_argument`) before anything is changed:
+    the bookkeeping state is untouched, only the ghost log records the rejection (defect 17 of the
+    design notes, repaired: formerly the test was `csecs == 0` and a negative delay reached
+    `setitimer`) -/
+theorem negative_delay_rejected (σ : St) (id : Nat) (cs : Int) (hcs : cs ≤ 0) :
+    create σ id cs = σ ∨
+    create σ id cs = { σ with used := id :: σ.used, log := Event.rejected id cs :: σ.log } := by
+  unfold create
+  split
+  · exact Or.inl rfl
+  · simp [hcs]
+
+example : (run false (atomicSched [.create 0 71, .tick 1969, .create 1 (-111), .create 2 165, .tick 708031])).log
+    = [.hset 941969, .fired 0 710000 0 71, .constructed 2 1969, .getitimer 708031, .born 2 1969 165,
+       .rejected 1 (-111), .constructed 0 0, .setitimer 710000, .born 0 0 71] := by decide
 
 /-- promptly after the deadline: outside critical sections of a quiet run of the repaired code,
     every watchdog whose deadline has been reached has fired — exactly at its deadline — unless its
@@ -176,13 +183,13 @@ theorem prompt_fails_negative_delay :
 theorem prompt_partial (sched : List Step) (hq : Quiet (run false sched))
     (hout : (run false sched).inCrit = false) : Prompt (run false sched) := by
   intro id b cs hb hd
-  exact (clock_of_quiet (inv_run sched) hq.1 hq.2 hout).prompt id b cs hb hd
+  exact (clock_of_quiet (inv_run sched) hq hout).prompt id b cs hb hd
 
 example : Quiet (run false (atomicSched [.create 0 10, .create 1 50, .tick 100000])) ∧
     (run false (atomicSched [.create 0 10, .create 1 50, .tick 100000])).inCrit = false ∧
     Event.born 0 0 10 ∈ (run false (atomicSched [.create 0 10, .create 1 50, .tick 100000])).log ∧
     (0 : Int) + 10 * 10000 ≤ (run false (atomicSched [.create 0 10, .create 1 50, .tick 100000])).now :=
-  ⟨⟨by decide, by decide⟩, by decide, by decide, by decide⟩
+  ⟨by decide, by decide, by decide, by decide⟩
 
 /-! ## deadline order -/
 
@@ -192,7 +199,7 @@ theorem deadline_order_partial (sched : List Step) (hq : Quiet (run false sched)
     (pre post : List Event) (id : Nat) (t b cs : Int)
     (h : (run false sched).log = pre ++ Event.fired id t b cs :: post) :
     ∀ id' t' b' cs', Event.fired id' t' b' cs' ∈ post → b' + cs' * 10000 ≤ b + cs * 10000 := by
-  obtain ⟨l, ⟨es, hl⟩, _, hord⟩ := quiet_log_facts (inv_run sched) hq.1 hq.2
+  obtain ⟨l, ⟨es, hl⟩, _, hord⟩ := quiet_log_facts (inv_run sched) hq
   rw [hl] at hord
   have := ordered_suffix es _ hord
   rw [h] at this
@@ -214,70 +221,62 @@ example : orderB (run false (atomicSched [.create 0 10, .create 1 56, .tick 1000
 
 `atomicSched ops`: every constructor / destructor of `ops` runs to completion before time passes
 again; time passes (and the handler runs) between the operations.  No hypothesis on the run is
-needed: with non-negative delays such a run is quiet. -/
+needed: such a run is quiet. -/
 
-theorem atomic_is_quiet (ops : List Step) (hpos : NonNegDelays ops) :
+theorem atomic_is_quiet (ops : List Step) :
     Quiet (run false (atomicSched ops)) ∧ (run false (atomicSched ops)).inCrit = false := by
-  have := rest_atomic ops hpos {} rest_init
-  exact ⟨⟨this.clean, this.args⟩, this.clock.notCrit⟩
+  have := rest_atomic ops {} rest_init
+  exact ⟨this.clean, this.clock.notCrit⟩
 
-/-- never early, at the granularity of public operations, repaired `==` -/
-theorem never_early_atomic (ops : List Step) (hpos : NonNegDelays ops) :
-    NeverEarly (run false (atomicSched ops)).log := by
+/-- never early, at the granularity of public operations -/
+theorem never_early_atomic (ops : List Step) : NeverEarly (run false (atomicSched ops)).log := by
   intro id t b cs hf
-  have := exact_partial _ (atomic_is_quiet ops hpos).1 id t b cs hf
+  have := exact_partial _ (atomic_is_quiet ops).1 id t b cs hf
   omega
 
 /-- exactly at the deadline, hence promptly: every watchdog whose deadline has been reached has
     fired at its deadline, unless destroyed -/
-theorem prompt_atomic (ops : List Step) (hpos : NonNegDelays ops) :
-    Prompt (run false (atomicSched ops)) :=
-  prompt_partial _ (atomic_is_quiet ops hpos).1 (atomic_is_quiet ops hpos).2
+theorem prompt_atomic (ops : List Step) : Prompt (run false (atomicSched ops)) :=
+  prompt_partial _ (atomic_is_quiet ops).1 (atomic_is_quiet ops).2
 
-theorem deadline_order_atomic (ops : List Step) (hpos : NonNegDelays ops)
+theorem deadline_order_atomic (ops : List Step)
     (pre post : List Event) (id : Nat) (t b cs : Int)
     (h : (run false (atomicSched ops)).log = pre ++ Event.fired id t b cs :: post) :
     ∀ id' t' b' cs', Event.fired id' t' b' cs' ∈ post → b' + cs' * 10000 ≤ b + cs * 10000 :=
-  deadline_order_partial _ (atomic_is_quiet ops hpos).1 pre post id t b cs h
+  deadline_order_partial _ (atomic_is_quiet ops).1 pre post id t b cs h
 
-example : NonNegDelays [.create 0 10, .create 1 50, .tick 50000, .destroy 0, .tick 450000] ∧
-    Event.fired 1 500000 0 50 ∈
-      (run false (atomicSched [.create 0 10, .create 1 50, .tick 50000, .destroy 0, .tick 450000])).log := by
-  refine ⟨?_, by decide⟩
-  intro id cs h
-  simp at h
-  rcases h with ⟨_, h⟩ | ⟨_, h⟩ <;> omega
+example : Event.fired 1 500000 0 50 ∈
+    (run false (atomicSched [.create 0 10, .create 1 50, .tick 50000, .destroy 0, .tick 450000])).log := by
+  decide
 
 /-! ## the weight watcher -/
 
 /-- With all live thresholds and the weight inside a window narrower than 2^63 at every comparison
     (`lapped = false`: the side condition under which `Weightwatch_Traits::less_than` is the true
-    comparison): a watcher fires at a check only if the accumulated weight EXCEEDS its threshold
-    there and did not at the previous check (`p ≤ g < c`), and after a check no pending watcher is
-    exceeded by the weight at that check. -/
+    comparison): a watcher fires at a check only if the accumulated weight has REACHED its threshold
+    there (`g ≤ c`) and had not at the previous check (`p < g`), i.e. at the first check after the
+    threshold is reached; and after a check no pending watcher's threshold has been reached by the
+    weight at that check. -/
 theorem fires_iff_reached_partial (w0 : Nat) (ops : List WOp) (h : (wRun w0 ops).lapped = false) :
-    (∀ id g p c, WEvent.fired id g p c ∈ (wRun w0 ops).log → p ≤ g ∧ g < c) ∧
-    (∀ e ∈ (wRun w0 ops).pending, (wRun w0 ops).gLast ≤ e.gThr) := by
+    (∀ id g p c, WEvent.fired id g p c ∈ (wRun w0 ops).log → p < g ∧ g ≤ c) ∧
+    (∀ e ∈ (wRun w0 ops).pending, (wRun w0 ops).gLast < e.gThr) := by
   rcases winv_run w0 ops with hl | hi
   · rw [h] at hl; exact absurd hl (by simp)
   · exact ⟨hi.fired, fun e he => (hi.thr e he).2⟩
 
+/-- across the wrap-around of the 64-bit counter -/
 example : (wRun 18446744073709551610 [.create 0 10, .add 11, .check]).lapped = false ∧
     WEvent.fired 0 18446744073709551620 18446744073709551610 18446744073709551621 ∈
       (wRun 18446744073709551610 [.create 0 10, .add 11, .check]).log := by decide
 
-/-- "reaches" read as `≥`: at the first check after the weight has reached the threshold EXACTLY the
-    watcher does not trigger (`less_than(a, b)` is `a ≤ b`) -/
-theorem fires_iff_reached_fails :
-    ¬ ∀ w0 ops, (wRun w0 ops).lapped = false → ∀ e ∈ (wRun w0 ops).pending, (wRun w0 ops).gLast < e.gThr := by
-  intro h
-  have := h 0 [.create 0 5, .add 5, .check] (by decide) ⟨5, 0, 5⟩ (by decide)
-  revert this; decide
+/-- at weight == threshold exactly the watcher triggers; a zero delta is "already reached" -/
+example : WEvent.fired 0 5 0 5 ∈ (wRun 0 [.create 0 5, .add 5, .check]).log ∧
+    WEvent.rejected 1 ∈ (wRun 0 [.create 1 0]).log := by decide
 
 /-- without the window condition the clause is false: a jump of more than 2^63 past the threshold
     is not seen -/
 theorem fires_iff_reached_fails_outside_window :
-    ¬ ∀ w0 ops, ∀ e ∈ (wRun w0 ops).pending, (wRun w0 ops).gLast ≤ e.gThr := by
+    ¬ ∀ w0 ops, ∀ e ∈ (wRun w0 ops).pending, (wRun w0 ops).gLast < e.gThr := by
   intro h
   have := h 0 [.create 0 1, .add (H63 + 5), .check] ⟨1, 0, 1⟩ (by decide)
   revert this; decide
